@@ -218,6 +218,13 @@ def monitor(cfg, evs, meta, steps, info):
     if not meta.get("unrepaired"):
         heldset = set(info["held"])
         for b in info["completed"]:
+            if b is None:
+                viols.append({"signature": "serializer.transfer:completed-snapshot-missing",
+                              "what": "a snapshot transfer completed (setTransmissionData returned True) but the received snapshot "
+                                      "is missing or unreadable where deserialize(incoming=True) / finishIncoming look for it "
+                                      "(another writer removed, truncated or renamed the file); mode %s->%s, chunk size %d"
+                                      % (cfg["sm"], cfg["rm"], cfg["sb"])})
+                break
             if b not in heldset:
                 viols.append({"signature": "serializer.transfer:completed-bytes-not-held",
                               "what": "a snapshot transfer completed (setTransmissionData returned True) with %d bytes that "
@@ -247,7 +254,7 @@ def monitor(cfg, evs, meta, steps, info):
             viols.append({"signature": "serializer.transfer:roundtrip-mismatch",
                           "what": "an uninterrupted transfer (mode %s->%s, chunk size %d) did not deliver the snapshot exactly "
                                   "once: delivery results %s, completed %s, expected %s"
-                                  % (cfg["sm"], cfg["rm"], cfg["sb"], rets[-6:], [len(b) // 2 for b in info["completed"]],
+                                  % (cfg["sm"], cfg["rm"], cfg["sb"], rets[-6:], [None if b is None else len(b) // 2 for b in info["completed"]],
                                      meta.get("expect") or meta.get("expect_data"))})
     return viols
 
@@ -390,7 +397,7 @@ def run(ctx):
                 v["replay"] = {"component": "corr.serializer_chunks", "cfg": cfg, "evs": small, "meta": meta}
                 viols.append(v)
         if len(samples) < 2 and meta["kind"] in ("reconnect", "random"):
-            samples.append({"cfg": cfg, "events": [e["e"] for e in evs][:30], "completed_sizes": [len(b) // 2 for b in info["completed"]]})
+            samples.append({"cfg": cfg, "events": [e["e"] for e in evs][:30], "completed_sizes": [None if b is None else len(b) // 2 for b in info["completed"]]})
     mouts = ctx.driver("serializer", lines)
     if len(mouts) != len(lines):
         disagreements.append({"input": "batch", "model": "%d answers" % len(mouts), "impl": "%d cases" % len(lines),
